@@ -92,7 +92,7 @@ type tok struct {
 func lexSpec(s string) ([]tok, error) {
 	var out []tok
 	i := 0
-	ops := []string{"<==>", "==>", "::", "==", "!=", "<=", ">=", "&&", "||", "(", ")", "[", "]", "{", "}", ",", ".", ":", "+", "-", "*", "/", "%", "<", ">", "!", "#"}
+	ops := []string{"<==>", "==>", "::", "==", "!=", "<=", ">=", "&&", "||", "(", ")", "[", "]", "{", "}", ",", ".", ":", "+", "-", "*", "/", "%", "<", ">", "!", "#", "&"}
 	for i < len(s) {
 		c := s[i]
 		if c == ' ' || c == '\t' || c == '\n' || c == '\r' {
@@ -326,7 +326,7 @@ func (p *specParser) parseMul() *Expr {
 
 func (p *specParser) parseUnary() *Expr {
 	t := p.peek()
-	if t.kind == "op" && (t.text == "!" || t.text == "-" || t.text == "*") {
+	if t.kind == "op" && (t.text == "!" || t.text == "-" || t.text == "*" || t.text == "&") {
 		p.next()
 		x := p.parseUnary()
 		return &Expr{Op: "unary", Name: t.text, Args: []*Expr{x}}
@@ -474,6 +474,11 @@ type Contract struct {
 	Assigns   []string
 	HasAssign bool
 	Loops     map[int]*LoopSpec
+	RangeCalls map[int]*LoopSpec
+	Implements string
+	ParamNames []string // declared parameter names (interface method contracts)
+	ImplAlias  []string // parameter names of the implemented interface method, positionally
+	ThisAlias  bool // `this` in clauses denotes the receiver
 	Inline    bool
 	Trusted   bool   // contract assumed, body not verified (listed in assumptions)
 	TrustWhy  string
@@ -518,6 +523,11 @@ type TypeInv struct {
 
 type Pair struct{ Prop, Fork, Orig string }
 
+type BoundedCheck struct {
+	Prop, Pkg, Desc string
+	Quick, Thorough int
+}
+
 type GhostVar struct {
 	Name string
 	Dims int
@@ -527,6 +537,7 @@ type GhostVar struct {
 
 type ContractSet struct {
 	Pairs     []Pair
+	Bounded   []BoundedCheck
 	GhostVars map[string]*GhostVar
 	Funcs     map[string]*Contract // key: pkgname + "." + Key
 	SpecFuncs map[string]*SpecFunc
@@ -545,7 +556,7 @@ var clauseKeywords = map[string]bool{
 	"func": true, "requires": true, "ensures": true, "panics_iff": true, "on_panic": true,
 	"assigns": true, "loop": true, "inline": true, "trusted": true, "classes": true, "pure": true,
 	"property": true, "spec": true, "axiom": true, "lemma": true, "type": true, "let": true, "mode": true,
-	"opt": true, "ghost": true, "callback": true, "pair": true, "ghostvar": true,
+	"opt": true, "ghost": true, "callback": true, "pair": true, "ghostvar": true, "rangecall": true, "implements": true, "bounded": true,
 }
 
 // LoadContracts parses every zz_contracts_verif.go below root.
@@ -570,6 +581,22 @@ func LoadContracts(root string) (*ContractSet, error) {
 		}
 	}
 	cs.Files = files
+	for _, k := range cs.Order {
+		c := cs.Funcs[k]
+		if c.Implements == "" {
+			continue
+		}
+		ic, ok := cs.Funcs[c.Implements]
+		if !ok {
+			return nil, fmt.Errorf("%s: implements %s: no such interface method contract", k, c.Implements)
+		}
+		c.Requires = append(append([]Clause(nil), ic.Requires...), c.Requires...)
+		c.Ensures = append(append([]Clause(nil), ic.Ensures...), c.Ensures...)
+		c.Assigns = append(append([]string(nil), ic.Assigns...), c.Assigns...)
+		c.HasAssign = c.HasAssign || ic.HasAssign
+		c.ThisAlias = true
+		c.ImplAlias = ic.ParamNames
+	}
 	return cs, nil
 }
 
@@ -657,10 +684,17 @@ func (cs *ContractSet) parseFile(path string) error {
 		switch kw {
 		case "func":
 			key := strings.TrimSpace(rest)
+			var pnames []string
 			if j := strings.Index(key, "("); j >= 0 {
+				inner := strings.TrimSuffix(strings.TrimSpace(key[j+1:]), ")")
+				for _, p := range strings.Split(inner, ",") {
+					if p = strings.TrimSpace(p); p != "" {
+						pnames = append(pnames, p)
+					}
+				}
 				key = strings.TrimSpace(key[:j])
 			}
-			cur = &Contract{Key: key, Pkg: pkg, Loops: map[int]*LoopSpec{}, Classes: map[string][]string{}, Callbacks: map[string]string{}, Extra: map[string][]string{}, File: path, Line: l.line}
+			cur = &Contract{ParamNames: pnames, Key: key, Pkg: pkg, Loops: map[int]*LoopSpec{}, Classes: map[string][]string{}, Callbacks: map[string]string{}, Extra: map[string][]string{}, File: path, Line: l.line}
 			full := pkg + "." + key
 			if _, dup := cs.Funcs[full]; dup {
 				return fail("duplicate contract for %s", full)
@@ -754,6 +788,42 @@ func (cs *ContractSet) parseFile(path string) error {
 			default:
 				return fail("unknown loop clause %q", k2)
 			}
+		case "rangecall":
+			// rangecall N invariant expr : invariant of the spec loop standing for the N-th Range(...) call
+			nstr, r2 := splitWord(rest)
+			n, err := strconv.Atoi(nstr)
+			if err != nil {
+				return fail("rangecall ordinal: %v", err)
+			}
+			k2, r3 := splitWord(r2)
+			lab := ""
+			if j := strings.Index(k2, "["); j > 0 {
+				lab = strings.TrimSuffix(k2[j+1:], "]")
+				k2 = k2[:j]
+			}
+			if cur.RangeCalls == nil {
+				cur.RangeCalls = map[int]*LoopSpec{}
+			}
+			ls := cur.RangeCalls[n]
+			if ls == nil {
+				ls = &LoopSpec{}
+				cur.RangeCalls[n] = ls
+			}
+			e, err := parse(r3)
+			if err != nil {
+				return err
+			}
+			switch k2 {
+			case "invariant":
+				ls.Inv = append(ls.Inv, Clause{Label: lab, E: e, Src: r3})
+			case "use":
+				ls.Hints = append(ls.Hints, Clause{E: e, Src: r3})
+			default:
+				return fail("unknown rangecall clause %q", k2)
+			}
+		case "implements":
+			// implements <pkg.Iface.Method> : the interface method's requires/ensures/assigns apply, with `this` = the receiver
+			cur.Implements = strings.TrimSpace(rest)
 		case "inline":
 			cur.Inline = true
 		case "trusted":
@@ -812,6 +882,15 @@ func (cs *ContractSet) parseFile(path string) error {
 			if kw == "axiom" {
 				cs.Scan = append(cs.Scan, fmt.Sprintf("%s: axiom %s (definitional equation of a spec function)", pkg, ax.Name))
 			}
+		case "bounded":
+			// bounded <property> <quick bound> <thorough bound> <description...> : a bounded stand-in run from the package's replay file
+			f := strings.Fields(rest)
+			if len(f) < 4 {
+				return fail("bounded <property> <quick> <thorough> <description>")
+			}
+			q, _ := strconv.Atoi(f[1])
+			th, _ := strconv.Atoi(f[2])
+			cs.Bounded = append(cs.Bounded, BoundedCheck{Prop: f[0], Pkg: pkg, Quick: q, Thorough: th, Desc: strings.Join(f[3:], " ")})
 		case "ghostvar":
 			// ghostvar <name> <number of integer indices> <element type>
 			f := strings.Fields(rest)
